@@ -117,6 +117,36 @@ bench("sinkmix", ["A", "B"],
       sinks=["s1", "s2"],
       procs=[ev("A", 1), ev("A", 1)])
 
+# Ports of every small arity (1, 2, 3 connections) in which a filter_map connection rejects a message that its
+# neighbour(s) accept, at every position (first, last, only), to models and to a sink: the broadcaster's special
+# cases for 0, 1 and 2.. senders each see an accepting and a rejecting connection.
+bench("arity_a", ["A", "B", "C"],
+      prog=[[send(1, 2), send(1, 3), send(2, 2), send(2, 3), send(3, 2), send(3, 3)],   # 1 (A)
+            [NOP],                                                                        # 2
+            [NOP]],                                                                       # 3
+      ports={"A": [out(conn("B", "filter", accept=[2]), conn("C")),                      # filter first, plain last
+                   out(conn("B"), conn("C", "filter", accept=[3])),                      # plain first, filter last
+                   out(conn("B", "filter", accept=[3]))]},                               # a single filtered connection
+      procs=[ev("A", 1)])
+bench("arity_b", ["A", "B", "C"],
+      prog=[[send(1, 2), send(1, 3), send(2, 2), send(2, 3), send(3, 3), send(3, 2)],   # 1 (A)
+            [NOP],                                                                        # 2
+            [NOP]],                                                                       # 3
+      ports={"A": [out(conn("sink:s1", "filter", accept=[2]), conn("B")),               # filtered sink + plain model
+                   out(conn("B", "filter", accept=[2]), conn("C", "filter", accept=[3])),  # two disjoint filters
+                   out(conn("C", "map", delta=0), conn("sink:s1"), conn("B", "filter", accept=[2]))]},  # three
+      sinks=["s1"],
+      procs=[ev("A", 1)])
+bench("arity_q", ["A", "B", "C"],
+      prog=[[query(1, 2), query(1, 3), query(2, 2), query(2, 3)],   # 1 (A)
+            [NOP],                                                    # 2
+            [NOP]],                                                   # 3
+      ports={"A": [req(conn("B", "filter", accept=[2]), conn("C")),
+                   req(conn("B"), conn("C", "filter", accept=[3]))]},
+      sources=[out(conn("A", "filter", accept=[2]), conn("B")),                      # S1
+               req(conn("B"), conn("C", "filter", accept=[3]))],                     # S2
+      procs=[ev("A", 1), srcev("S1", 2), srcev("S1", 3), srcqr("S2", 2), srcqr("S2", 3)])
+
 # Queries: A asks B, C (mapped) and B again (filtered); repliers themselves send an event to a sink.
 bench("query", ["A", "B", "C"],
       prog=[[query(1, 2), query(1, 3)],  # 1 (A)
